@@ -837,9 +837,11 @@ def separate_rule(ctx, d6):
         is_mat = implied(p.conds, lambda e: isinstance(e, ast.Call) and 'MaterialIndexer' in src(e))
         same_ph = rimplied(p, lambda t: t in ('(self._phases == %s.phases)' % o, '(%s.phases == self._phases)' % o))
         key = 'multi-phase operand=%s, same phases=%s, same package=%s' % (is_mat, same_ph, same_pkg)
-        skip = any(e.kind == 'continue' for e in p.events)
+        skip = any(e.kind == 'continue' for e in p.events) \
+            or implied(p.conds, lambda e: isinstance(e, ast.Call) and isinstance(e.func, ast.Attribute) and e.func.attr == 'any' and not e.args
+                       and isinstance(e.func.value, ast.Name)) is False
         if skip:
-            continue      # empty phase row of the operand: nothing to subtract
+            continue      # empty phase row of the operand (tested with `if not row.any(): continue` or `if row.any(): ...`): nothing to subtract
         okk = len(aug) == 1 and aug[0].op == 'Sub'
         why = 'expected exactly one "-=" into the receiver data, found %d' % len(aug)
         if okk:
